@@ -717,6 +717,30 @@ def _merge(ck, p, byk):
         swp = calls_to(f, "mem::swap")
         mrg = calls_to(f, "::merge_from")
         rpl = calls_to(f, "mem::replace")
+        if len(mrg) == 1:
+            # the defaults are filled in on every path: no way round the merge that leaves self untouched
+            ok_all, wit = cfg.every_path_passes(0, {mrg[0][0]})
+            if 0 == mrg[0][0] or ok_all:
+                ck.proved(rule, "LintGroupConfig::fill_with_curated:always", f.span, "every path through fill_with_curated passes the merge")
+            else:
+                path = [0] + list(wit or [])
+                writes = False
+                for bi2 in path:
+                    b2 = f.blocks[bi2]
+                    for sx in b2["s"]:
+                        if sx["k"] == "assign" and sx["lhs"][:2] == [1, "*"]:
+                            writes = True
+                        if sx["k"] == "assign" and sx["rv"]["k"] == "ref" and sx["rv"].get("mut") and sx["rv"]["place"][:1] == [1]:
+                            writes = True
+                side = cfg.reachable_from([0], avoid=[mrg[0][0]])
+                looks = sorted({method(f.blocks[b3]["t"]) for b3 in side if f.blocks[b3]["t"]["k"] == "call" and method(f.blocks[b3]["t"]) in ("contains_key", "get", "get_mut", "keys", "iter", "entry", "eq", "ne", "into_iter", "is_subset", "is_superset")})
+                if writes:
+                    ck.undecided(rule, "LintGroupConfig::fill_with_curated:always", f.span, "a path leaves fill_with_curated without passing the merge but writes to self on the way: not of a recognised form")
+                elif looks:
+                    ck.undecided(rule, "LintGroupConfig::fill_with_curated:always", f.span, "a path leaves fill_with_curated without passing the merge; the test that selects it looks at individual entries (%s): whether it holds only for configurations that name every curated rule is not decided" % ", ".join(looks))
+                else:
+                    ln = f.blocks[path[-1]]["t"].get("ln") or f.blocks[path[-2]]["t"].get("ln") if len(path) > 1 else 0
+                    ck.refuted(rule, "LintGroupConfig::fill_with_curated:always", f.span, "a path leaves fill_with_curated without merging the curated defaults and without writing to self at all (blocks %s), and the test that selects that path looks at no rule name (no lookup by key, no walk over the entries - sizes and values only): a configuration with as many entries as there are curated rules, one of them under a stale name, takes it and keeps its gap - the rule it does not mention stays without an entry and reads as switched off" % path[:8])
         if len(cur) == 1 and not swp and not rpl and len(mrg) == 1:
             # let mut curated = new_curated(); curated.merge_from(self); *self = curated
             (cb, ct), (mb, mt) = cur[0], mrg[0]
